@@ -341,6 +341,11 @@ func init() {
 	// '''abc''': the documentation lists triple quotes AND doubled quotes; both readings accepted
 	add(&Lexeme{Name: "tstr:triple", Sig: "tstr:triple", Class: "tstr", Text: `'''abc'''`,
 		Exp: []Expect{{Kinds: kTStr, Value: "abc"}, {Kinds: kStr, Value: "'abc'"}}})
+	// the same over several lines: the line breaks are part of the value under either reading
+	add(&Lexeme{Name: "tstr:triple-multiline", Sig: "tstr:triple", Class: "tstr", Text: "'''line 1\nline 2'''",
+		Exp: []Expect{{Kinds: kTStr, Value: "line 1\nline 2"}, {Kinds: kStr, Value: "'line 1\nline 2'"}}})
+	add(&Lexeme{Name: "tstr:triple-blank-lines", Sig: "tstr:triple", Class: "tstr", Text: "'''a\n\nb\n'''",
+		Exp: []Expect{{Kinds: kTStr, Value: "a\n\nb\n"}, {Kinds: kStr, Value: "'a\n\nb\n'"}}})
 	// dollar-quoted strings
 	ds := func(name, text, value string) { lx("dstr:"+name, "dstr", text, value, kDStr) }
 	ds("empty-tag", "$$x$$", "x")
